@@ -3,6 +3,7 @@
 package harness
 
 import (
+	"strings"
 	"encoding/json"
 	"fmt"
 	"os"
@@ -37,6 +38,7 @@ import (
 	elysapp "github.com/elys-network/elys/app"
 	ammtypes "github.com/elys-network/elys/x/amm/types"
 	atypes "github.com/elys-network/elys/x/assetprofile/types"
+	burnertypes "github.com/elys-network/elys/x/burner/types"
 	ctypes "github.com/elys-network/elys/x/commitment/types"
 	oracletypes "github.com/elys-network/elys/x/oracle/types"
 	ptypes "github.com/elys-network/elys/x/parameter/types"
@@ -66,6 +68,10 @@ type Scenario struct {
 	VestNowFactor    int64    `json:"vest_now_factor"`
 	MaxVestings      int64    `json:"max_vestings"`
 	ClaimedEden      string   `json:"claimed_eden"` // initial claimed Eden/EdenB per user (ledger only)
+	// burner module: tokens sent to the zero address are burnt when this epoch ends ("" = the module's default
+	// identifier, which never fires); only denoms with bank metadata are burnt
+	BurnEpoch  string   `json:"burn_epoch,omitempty"`
+	BurnDenoms []string `json:"burn_denoms,omitempty"`
 }
 
 func DefaultScenario() Scenario {
@@ -268,7 +274,15 @@ func (w *World) buildGenesis() ([]byte, []byte) {
 		Coins:   sdk.Coins{sdk.NewCoin(ptypes.Elys, bondAmt)},
 	})
 	total = total.Add(sdk.NewCoin(ptypes.Elys, bondAmt))
-	gs[banktypes.ModuleName] = cdc.MustMarshalJSON(banktypes.NewGenesisState(banktypes.DefaultGenesisState().Params, balances, total, []banktypes.Metadata{}, []banktypes.SendEnabled{}))
+	metas := []banktypes.Metadata{}
+	for _, d := range sc.BurnDenoms {
+		metas = append(metas, banktypes.Metadata{Description: d, Base: d, Display: d, Name: d, Symbol: strings.ToUpper(d),
+			DenomUnits: []*banktypes.DenomUnit{{Denom: d, Exponent: 0}}})
+	}
+	gs[banktypes.ModuleName] = cdc.MustMarshalJSON(banktypes.NewGenesisState(banktypes.DefaultGenesisState().Params, balances, total, metas, []banktypes.SendEnabled{}))
+	if sc.BurnEpoch != "" {
+		gs[burnertypes.ModuleName] = cdc.MustMarshalJSON(&burnertypes.GenesisState{Params: burnertypes.Params{EpochIdentifier: sc.BurnEpoch}})
+	}
 
 	// consumer (ICS) genesis with a fixed timestamp
 	pub, _ := validator.ToProto()
